@@ -19,6 +19,9 @@
 //!   p M M …              pipeline of members      M ::= sN (`st N`) | xN (`exit N`) | c (`cat`)
 //!                                                      | eW (`echo W`) | gN (`( exit N )`) | qN (`x=$(exit N)`)
 //!   np M M …             the same, negated (`! …`)
+//!   fp F F …             pipeline whose stages block on I/O with each other
+//!                        F ::= wN (`spew N`: write N bytes) | c (`cat`) | d (`drain`: read to EOF)
+//!                            | tK.S (`take K S`: read K bytes, exit S) | sN (`st N`)
 //!   bg M                 `M &`  (asynchronous list, `$!` saved in `$jK`, K = number of this job)
 //!   bg M M …             `M | M … &`
 //!   wj O O …             `wait` with operands  O ::= K (`$jK`) | u (`99999`, never a child) | % (`%7`, no such job)
@@ -37,11 +40,12 @@
 //!
 //! Observation: the probe trace `<$?>/<$!>/<$x>` with every `$!` value replaced by `a<k>` (k-th distinct
 //! value), pipeline output as `o:<word>`, then `st=<final exit status>` and `z=<number of children of any process that are
-//! alive or still hold an unreported state at exit>`.  A run that stalls is `TIMEOUT`.
+//! alive or still hold an unreported state at exit>`.  A run in which nothing is runnable while the shell
+//! is unfinished is `DEADLOCK`; one that exhausts the poll budget is `TIMEOUT`.
 //!
 //! Oracle (Rust side, independent of the Lean model): the observation of a (program, schedule) pair
 //! equals that of the first schedule explored for the same program (`FAIL:schedule-dependent`), no
-//! zombie (`FAIL:zombie`), no stall (`FAIL:TIMEOUT`).
+//! zombie (`FAIL:zombie`), no deadlock (`FAIL:deadlock`), no livelock (`FAIL:TIMEOUT`).
 
 use std::cell::{Cell, RefCell};
 use std::fmt::Debug;
@@ -65,7 +69,71 @@ use yash_semantics::read_eval_loop;
 use yash_semantics::trap::run_exit_trap;
 use yverif::proto::{Opts, dec_str, emit, guarded, quiet_panics};
 use yverif::rng::Rng;
-use yverif::shell::{VEnv, probe_builtins, read_file};
+use yash_env::builtin::{Builtin, Type};
+use yash_env::io::Fd;
+use yash_env::semantics::{ExitStatus, Field};
+use yash_env::system::Read as _;
+use yash_env::system::concurrency::WriteAll as _;
+use yverif::shell::{BuiltinFuture, VEnv, VSys, probe_builtins, read_file};
+
+// ------------------------------------------------------------------------------------------
+// built-ins for pipelines whose stages block on I/O with each other
+
+fn arg(args: &[Field], i: usize) -> usize {
+    args.get(i).and_then(|f| f.value.parse().ok()).unwrap_or(0)
+}
+
+/// `spew N`: one `write_all` of N bytes to standard output; exit status 0, or 1 if the write fails
+/// (EPIPE: every reader of the pipe is gone).
+fn spew_main(env: &mut VEnv, args: Vec<Field>) -> BuiltinFuture<'_> {
+    let n = arg(&args, 0);
+    Box::pin(async move {
+        let data: Vec<u8> = (0..n).map(|i| b'a' + (i % 23) as u8).collect();
+        match env.system.write_all(Fd::STDOUT, &data).await {
+            Ok(()) => ExitStatus::SUCCESS.into(),
+            Err(_) => ExitStatus::FAILURE.into(),
+        }
+    })
+}
+
+/// `take K S`: reads standard input until K bytes have arrived or end of file, then exits with S
+/// (without reading further: the rest stays in the pipe).
+fn take_main(env: &mut VEnv, args: Vec<Field>) -> BuiltinFuture<'_> {
+    let mut k = arg(&args, 0);
+    let st = arg(&args, 1) as i32;
+    Box::pin(async move {
+        let mut buffer = vec![0u8; k.max(1)];
+        while k > 0 {
+            match env.system.read(Fd::STDIN, &mut buffer[..k]).await {
+                Ok(0) | Err(_) => break,
+                Ok(n) => k -= n,
+            }
+        }
+        ExitStatus(st).into()
+    })
+}
+
+/// `drain`: reads standard input to end of file; exit status 0.
+fn drain_main(env: &mut VEnv, _args: Vec<Field>) -> BuiltinFuture<'_> {
+    Box::pin(async move {
+        let mut buffer = [0u8; 1024];
+        loop {
+            match env.system.read(Fd::STDIN, &mut buffer).await {
+                Ok(0) => return ExitStatus::SUCCESS.into(),
+                Ok(_) => {}
+                Err(_) => return ExitStatus::FAILURE.into(),
+            }
+        }
+    })
+}
+
+fn flow_builtins() -> Vec<(&'static str, Builtin<VSys>)> {
+    vec![
+        ("spew", Builtin::new(Type::Mandatory, spew_main)),
+        ("take", Builtin::new(Type::Mandatory, take_main)),
+        ("drain", Builtin::new(Type::Mandatory, drain_main)),
+    ]
+}
 
 // ------------------------------------------------------------------------------------------
 // the schedule-exploring executor
@@ -188,6 +256,8 @@ struct RunOut {
     stderr: Vec<u8>,
     status: i32,
     stuck: bool,
+    /// `stuck` because no task was runnable (as opposed to the poll budget running out)
+    deadlock: bool,
     /// processes other than the main shell that are alive or hold an unreported state at the end
     zombies: usize,
     /// processes ever created (including the shell)
@@ -224,6 +294,7 @@ fn run_sched(script: &str, mut chooser: Chooser) -> RunOut {
         };
         let work = configure_environment(&mut env, run).await;
         env.builtins.extend(probe_builtins());
+        env.builtins.extend(flow_builtins());
         let status = eval_source(&mut env, &work.source).await;
         result2.set(Some(status));
     };
@@ -232,6 +303,7 @@ fn run_sched(script: &str, mut chooser: Chooser) -> RunOut {
 
     let mut polls = 0usize;
     let mut stuck = false;
+    let mut deadlock = false;
     let mut status: Option<i32> = None;
     loop {
         if status.is_none() {
@@ -253,6 +325,7 @@ fn run_sched(script: &str, mut chooser: Chooser) -> RunOut {
                 // The main shell finished: whatever is left never terminates (reported as zombies).
                 // The main shell did not finish: deadlock.
                 stuck = status.is_none();
+                deadlock = stuck;
                 break;
             }
             continue;
@@ -280,7 +353,7 @@ fn run_sched(script: &str, mut chooser: Chooser) -> RunOut {
     // break the Rc cycle state -> executor -> tasks -> state
     state.borrow_mut().executor = None;
     sched.tasks.borrow_mut().clear();
-    RunOut { stdout, stderr, status: status.unwrap_or(-1), stuck, zombies, procs, taken: chooser.taken }
+    RunOut { stdout, stderr, status: status.unwrap_or(-1), stuck, deadlock, zombies, procs, taken: chooser.taken }
 }
 
 /// The tail of `yash_cli::run_as_shell_process` (as in `yverif::shell`).
@@ -322,6 +395,22 @@ fn render_member(t: &str) -> Option<String> {
     })
 }
 
+/// member of a flow pipeline: wN `spew N`, c `cat`, d `drain`, tK.S `take K S`, sN `st N`
+fn render_flow_member(t: &str) -> Option<String> {
+    let (h, r) = t.split_at(1);
+    Some(match h {
+        "w" => format!("spew {}", r.parse::<u32>().ok().filter(|n| *n <= 20000)?),
+        "c" if r.is_empty() => "cat".to_string(),
+        "d" if r.is_empty() => "drain".to_string(),
+        "t" => {
+            let (k, st) = r.split_once('.')?;
+            format!("take {} {}", k.parse::<u32>().ok().filter(|n| *n <= 20000)?, st.parse::<u32>().ok().filter(|n| *n < 256)?)
+        }
+        "s" => format!("st {}", r.parse::<u32>().ok().filter(|n| *n < 256)?),
+        _ => return None,
+    })
+}
+
 fn render_members(ms: &[&str]) -> Option<String> {
     if ms.is_empty() {
         return None;
@@ -339,6 +428,10 @@ fn render_stmt(t: &str, nasync: &mut usize) -> Option<String> {
         ["pf0"] => "set +o pipefail".to_string(),
         ["p", ms @ ..] if ms.len() >= 2 => render_members(ms)?,
         ["np", ms @ ..] if ms.len() >= 2 => format!("! {}", render_members(ms)?),
+        ["fp", ms @ ..] if ms.len() >= 2 => {
+            let v: Option<Vec<String>> = ms.iter().map(|m| render_flow_member(m)).collect();
+            v?.join(" | ")
+        }
         ["bg", ms @ ..] => {
             *nasync += 1;
             format!("{} & j{}=$!", render_members(ms)?, *nasync)
@@ -386,7 +479,9 @@ fn render(prog: &str) -> Option<String> {
 /// canonical observation of one run (see the file comment)
 fn observe(o: &RunOut) -> String {
     if o.stuck {
-        return "TIMEOUT".into();
+        // nothing runnable and nobody sleeping while the shell is unfinished = deadlock; the poll
+        // budget running out = TIMEOUT (livelock)
+        return (if o.deadlock { "DEADLOCK" } else { "TIMEOUT" }).into();
     }
     let text = String::from_utf8_lossy(&o.stdout).into_owned();
     let mut bangs: Vec<String> = vec![];
@@ -584,7 +679,9 @@ fn run_case(prog: &str, script: &str, chooser: Chooser, first: &mut Option<Strin
         let obs = observe(&o);
         taken = o.taken.clone();
         case = format!("{prog} @ {}", digits(&o.taken));
-        oracle = if o.stuck {
+        oracle = if o.deadlock {
+            "FAIL:deadlock".into()
+        } else if o.stuck {
             "FAIL:TIMEOUT".into()
         } else if o.zombies != 0 {
             "FAIL:zombie".into()
